@@ -149,9 +149,12 @@ def run(prog: Program, rep: Report, tier: str = "quick") -> None:
     rep.trust("abstract interpreter osv/ai (value numbering, intervals, assumed rank relations); osv/poly.py")
     rep.assume("input box of C08")
     rep.not_decided = ["loss <= draw <= win in two-team games", "the draw clause", "exchange monotonicity", "ordering of identical teams", "Plackett-Luce last-place clause (needs p_ii = 1 exactly)"]
-    for lst in parallel_map(_job, list(range(len(roles)))):
+    from .rankiso import iso_job
+
+    for lst in parallel_map(_job, list(range(len(roles)))) + parallel_map(iso_job, [(i, "R5.3") for i in range(len(roles))]):
         for d in lst:
             rep.add(Instance(d["rule"], d["verdict"], d["module"], d["function"], d["construct"], d["line"], d.get("message", ""), d.get("detail", {})))
     n = len(roles)
     rep.floor("R5.1", n)
     rep.floor("R5.2", 2 * n)
+    rep.floor("R5.3", 6 * n)
